@@ -35,6 +35,12 @@ def make_monitor(ctx):
                     return ("%s: sys.stdout/sys.stderr are the capture buffers (or not the streams that were installed "
                             "when the layer's tests began) while layer %d's %s runs"
                             % (pname, e[1], "testSetUp" if e[0] == "tsu" else "testTearDown"), "C13:not-restored")
+        # ... and no process is left with them when the run is over, however it ended
+        for e in c.obs.events:
+            if e.get("ev") == "exit" and any(e.get("cap") or []):
+                return ("when process %s ends, sys.stdout/sys.stderr are still the runner's capture streams %r"
+                        % ("(parent)" if e["pid"] == c.obs.parent_pid else "(layer subprocess)", e["cap"]),
+                        "C13:left-installed")
         if not c.opts.get("buffer"):
             return None
         if c.opts.get("post_mortem"):
